@@ -58,6 +58,21 @@ func genParallelOp(r *RNG) Op {
 		if op.Opt.Method > 4 {
 			op.Opt.Method = r.Range(1, 4)
 		}
+	case v < 98: // extreme aspect ratios above the decoder's parallel threshold (rows < workers, few rows per worker)
+		op.Img = GenImgSpec(r, 1, 2, 1)
+		long := r.Pick(6700, 7000, 9000, 12500, 16383)
+		short := r.Range(100000/long+1, 100000/long+9)
+		if r.Bool() {
+			op.Img.W, op.Img.H = long, short
+		} else {
+			op.Img.W, op.Img.H = short, long
+		}
+		op.Img.Family = r.PickS("flat", "hgrad", "pal", "text")
+		op.Img.Type = "nrgba"
+		op.Opt = GenLosslessOpts(r, 0)
+		op.Opt.Method = r.Range(0, 1)
+		op.Opt.Quality = 25
+		op.Kind = "dec"
 	default: // decoder parallel threshold
 		op.Img = GenImgSpec(r, 317, 330, 1)
 		op.Opt = GenLosslessOpts(r, 0)
@@ -103,7 +118,7 @@ func (propC12) Execute(pp any, x *X) *Violation {
 	p := pp.(*C12Params)
 	op := p.Op
 	var input []byte
-	if op.Kind != "enc" {
+	if needsInput(op) {
 		input = FileFor(op.Img, op.Opt)
 	}
 	x.Workload(hashString(op.Key()))
